@@ -19,7 +19,7 @@ RULE = (
     "Non-trivial = at least one fault, forged datagram or concurrent neighbour affected the history; distinct = hash of the sequence of (event kind, actor, message class) of the wire history"
 )
 ASSUMPTIONS = ["default TransportTuning (ACK_TIMEOUT 2, MAX_RETRANSMIT 4) for all requests", "forged tokens are only taken from datagrams already seen on the wire"]
-REQUIRED_MONITORS = {"request_outcome": 500, "result_is_first_matching": 300, "unmatched_con_rst": 50, "matched_con_ack": 30, "token_uniqueness": 100, "forged_wrong_source_not_delivered": 50, "failure_explained": 100, "token_boundary_crossed": 20, "bystander": 12}
+REQUIRED_MONITORS = {"request_outcome": 500, "result_is_first_matching": 300, "unmatched_con_rst": 50, "matched_con_ack": 30, "token_uniqueness": 100, "forged_wrong_source_not_delivered": 50, "failure_explained": 100, "token_boundary_crossed": 20, "retired_token_after_failed_observe_request": 4, "bystander": 12}
 
 SERVERS = [("10.0.0.1", 5683), ("10.0.0.1", 5684), ("10.0.0.3", 5683), ("10.0.0.4", 7777)]
 BEHAVIOURS = ["piggy", "piggy", "sep-con", "sep-non", "late", "never", "rst", "icmp"]
@@ -485,6 +485,8 @@ def run_bystander(kind, variant, seed, rep, case):
         net = simnet.SimNet(loop)
         C = simnet.addr("10.0.0.2", 40001)
 
+        notif = []
+
         def answering(peer, src, m, raw):
             if m is None or not rc.is_request(m.code):
                 return
@@ -492,6 +494,12 @@ def run_bystander(kind, variant, seed, rep, case):
             opts = ()
             if path == b"b1":
                 opts = ((27, rc.block_bytes(0, False, 2)),)  # a Block1 option nobody asked for
+                if rc.opt1(m, 6) is not None:
+                    # ... in the response to an observe request, which the server accepts (Observe option), and goes on
+                    # notifying: once the request has ended with an error, its token is retired
+                    opts = ((6, b"\x05"),) + opts
+                    for k, typ in enumerate((rc.CON, rc.NON, rc.CON)):
+                        loop.call_later(1.0 + k, lambda k=k, typ=typ: (notif.append(len(net.log)), peer.send(src, rc.Msg(typ, rc.c(2, 5), peer.next_mid(), m.token, ((6, bytes([6 + k])),), b"n%d" % k))))
             d = 0.5 if path == b"late" else 0.0
             loop.call_later(d, peer.send, src, rc.Msg(rc.ACK if m.type == rc.CON else rc.NON, rc.c(2, 5), m.mid if m.type == rc.CON else peer.next_mid(), m.token, opts, b"ok-" + path))
 
@@ -520,9 +528,10 @@ def run_bystander(kind, variant, seed, rep, case):
             await asyncio.sleep(0.1)
             rq.observation.cancel()
         if kind == "block1-in-response":
-            go("b1", aiocoap.Message(code=[aiocoap.GET, aiocoap.PUT][variant % 2], uri="coap://10.0.0.1/b1", payload=b"" if variant % 2 == 0 else b"x"), handle_blockwise=True)
+            kw = {"observe": 0} if variant >= 4 else {}
+            go("b1", aiocoap.Message(code=[aiocoap.GET, aiocoap.FETCH if variant >= 4 else aiocoap.PUT][variant % 2], uri="coap://10.0.0.1/b1", payload=b"" if variant % 2 == 0 else b"x", **kw), handle_blockwise=True)
         await asyncio.sleep(120.0)
-        box.update(net=net, out=dict(out), t0=t0)
+        box.update(net=net, out=dict(out), t0=t0, notif=list(notif))
         await cli.shutdown()
         await asyncio.sleep(1.0)
         box["after"] = dict(out)
@@ -536,6 +545,7 @@ def run_bystander(kind, variant, seed, rep, case):
             rep.violation("bystander/%s/scenario-failed" % kind, "scenario did not complete: hang=%r error=%r" % (res.hang, res.error), {"kind": kind, "variant": variant}, case)
         return
     rep.monitor("bystander")
+    C_ADDR = simnet.addr("10.0.0.2", 40001)
     out, after = box["out"], box["after"]
     w = lambda **kw: dict(kind=kind, variant=variant, outcomes={k: (round(v[0], 4), repr(v[1]), v[2]) for k, v in after.items()}, wire=box["net"].dump(30), loop=res.loop_exceptions[:2], **kw)
     exp = {"icmp": lambda v: isinstance(v[1], error.NetworkError) and v[0] - box["t0"] < 0.1, "silent": lambda v: isinstance(v[1], error.NetworkError) and 60 < v[0] - box["t0"] < 100, "ok": lambda v: v[1] is None and v[2] == b"ok-c"}
@@ -554,6 +564,18 @@ def run_bystander(kind, variant, seed, rep, case):
         rep.violation("bystander/multicast/not-ended-by-shutdown", "an unanswered multicast request did not end with the shutdown error when its context shut down", w(), case)
     if kind == "obs-cancelled" and ("obs" not in after or after["obs"][1] is not None or after["obs"][2] != b"ok-late"):
         rep.violation("bystander/obs-cancelled/request-not-completed-with-its-response", "an observe request whose observation the application had cancelled did not complete with the (matching) response", w(), case)
+    if kind == "block1-in-response" and variant >= 4 and "b1" in out and out["b1"][1] is not None:
+        # the request ended with an error: its token is retired; confirmable responses on it are to be answered with a
+        # Reset, non-confirmable ones not at all
+        net_ = box["net"]
+        rep.monitor("retired_token_after_failed_observe_request")
+        for e in net_.log:
+            if e.kind == "deliver" and e.dst == C_ADDR and e.msg is not None and rc.is_response(e.msg.code) and e.msg.payload[:1] == b"n" and e.t > out["b1"][0] + 1e-9:
+                reacts = [s_ for s_ in net_.log if s_.kind == "send" and getattr(s_, "cause", None) == e.seq]
+                ok = (len(reacts) == 1 and reacts[0].msg is not None and reacts[0].msg.type == rc.RST and reacts[0].msg.mid == e.msg.mid) if e.msg.type == rc.CON else not reacts
+                if not ok:
+                    rep.violation("retired-token/response-accepted-after-request-failed/%s" % ("con" if e.msg.type == rc.CON else "non"), "a response on the token of a request that had ended with an error was not rejected (confirmable: Reset; non-confirmable: nothing)", w(event=e.brief(), reactions=[s_.brief() for s_ in reacts]), case)
+                    return
     if kind == "block1-in-response" and ("b1" not in after or not (after["b1"][1] is None or isinstance(after["b1"][1], error.Error))):
         rep.violation("bystander/block1-in-response/not-a-library-outcome", "a response carrying an unsolicited Block1 option did not lead to the response or a library error", w(), case)
     if res.loop_exceptions:
@@ -576,7 +598,7 @@ def run_shard(shard, rep, only=None):
         run_history(h, shard["seed"] * 65537 + n, rep, case)
         if n < 1 and shard["index"] == 0:
             rep.sample({"class": "history", "history": h})
-    by = [(k, v) for k in ("multicast", "obs-cancelled", "block1-in-response") for v in range(4)]
+    by = [(k, v) for k in ("multicast", "obs-cancelled", "block1-in-response") for v in range(4)] + [("block1-in-response", v) for v in range(4, 8)]
     for j, (kind, variant) in enumerate(by):
         if j % shard["of"] != shard["index"] % len(by) and shard["of"] >= len(by):
             if j != shard["index"] % len(by):
